@@ -1818,11 +1818,13 @@ class NodeRequire:
         else:
             moduleEnv = environment.getBase().newEnv()
             try:
+                # bundled modules are looked up by file name only: a spec
+                # like "../../x" must not walk out of the package
                 data = pkgutil.get_data(
                     __name__,
-                    "modules/" + modulefile.lower()
+                    "modules/" + os.path.basename(modulefile).lower()
                 )
-            except FileNotFoundError:
+            except (OSError, ValueError):
                 data = None
             if data:
                 modulesrc = data.decode("utf-8")
@@ -1830,20 +1832,28 @@ class NodeRequire:
                 filename = os.path.basename(modulefile)
                 modulepath = os.path.expanduser("~/.ckl/modules")
                 modulesrc = None
-                filepath = os.path.join(modulepath, filename)
-                if os.path.exists(filepath):
-                    with open(filepath, encoding="utf-8") as infile:
-                        modulesrc = infile.read()
-                elif environment.isDefined("checkerlang_module_path"):
-                    for modulepath in environment.get(
-                            "checkerlang_module_path",
-                            self.pos
-                    ).value:
-                        filepath = os.path.join(modulepath.value, filename)
-                        if os.path.exists(filepath):
-                            with open(filepath, encoding="utf-8") as infile:
-                                modulesrc = infile.read()
-                                break
+                try:
+                    filepath = os.path.join(modulepath, filename)
+                    if os.path.exists(filepath):
+                        with open(filepath, encoding="utf-8") as infile:
+                            modulesrc = infile.read()
+                    elif environment.isDefined("checkerlang_module_path"):
+                        for modulepath in environment.get(
+                                "checkerlang_module_path",
+                                self.pos
+                        ).asList().value:
+                            filepath = os.path.join(
+                                modulepath.asString().value, filename
+                            )
+                            if os.path.exists(filepath):
+                                with open(
+                                    filepath, encoding="utf-8"
+                                ) as infile:
+                                    modulesrc = infile.read()
+                                    break
+                except (OSError, ValueError):
+                    # a name or a file the host cannot handle: not a module
+                    modulesrc = None
                 if modulesrc is None:
                     raise CklRuntimeError(
                         ValueString("ERROR"),
